@@ -181,7 +181,9 @@ Pair(t) == <<t.id, t.form>>
 Pairs(s) == [i \in 1..Len(s) |-> Pair(s[i])]
 
 Content   == Pairs(TokSel(LAMBDA t : t.as /\ ~t.forb))
-Forbidden == {toks[i].id : i \in {j \in 1..Len(toks) : toks[j].forb}}
+\* the renderer always puts a <style> element with token 999 into the head
+HeadStyleTok == 999
+Forbidden == {toks[i].id : i \in {j \in 1..Len(toks) : toks[j].forb}} \cup {HeadStyleTok}
 LinkFree(t) == \A i \in 1..Len(t.path) : t.path[i] \notin linky
 CleanIds(m) == {toks[i].id : i \in {j \in 1..Len(toks) :
                     /\ ~toks[j].forb
@@ -228,6 +230,15 @@ Walk(m, obs) ==
     /\ m = "none" => W1(obs)
     /\ m # "none" => W2(obs, outs[Len(outs)]) /\ W3(m, obs, outs[1])
     /\ outs' = Append(outs, obs)
+    /\ UNCHANGED gvars
+
+\* an entry point without a mode parameter (string, file) extracts in a mode of
+\* its own choosing: only content that no mode may exclude is asserted
+WalkDefault(obs) ==
+    /\ Complete /\ outs = <<>>
+    /\ W4(obs)
+    /\ Filter(obs, ContentIds \cap CleanIds("aggressive")) = Filter(Content, CleanIds("aggressive"))
+    /\ outs' = <<obs>>
     /\ UNCHANGED gvars
 
 \* ------------------------------------------------- reference walkers (R1)
